@@ -419,16 +419,16 @@ func (p Sqlite) UpdateAlert(editedAlert *alertutils.AlertDetails) error {
 		editedAlert.ContactName = contactData.ContactName
 	}
 
-	// Clear existing labels
-	if err := p.db.Model(&currentAlertData).Association("Labels").Clear(); err != nil {
-		err := fmt.Errorf("UpdateAlert: unable to clear labels for alert: %v, Error=%v", editedAlert.AlertName, err)
-		log.Error(err.Error())
-		return err
-	}
-
-	result := p.db.Set("gorm:association_autoupdate", true).Save(&editedAlert)
-	if result.Error != nil && result.RowsAffected != 1 {
-		err := fmt.Errorf("UpdateAlert: unable to update details for alert: %v, Error=%v", editedAlert.AlertName, result.Error)
+	// Clear the existing labels and save the edited alert in one transaction, so that a rejected
+	// update (e.g. the new alert name is taken) leaves the alert and its labels as they were
+	err = p.db.Transaction(func(tx *gorm.DB) error {
+		if err := tx.Model(&currentAlertData).Association("Labels").Clear(); err != nil {
+			return fmt.Errorf("unable to clear labels: %v", err)
+		}
+		return tx.Set("gorm:association_autoupdate", true).Save(&editedAlert).Error
+	})
+	if err != nil {
+		err := fmt.Errorf("UpdateAlert: unable to update details for alert: %v, Error=%v", editedAlert.AlertName, err)
 		log.Error(err.Error())
 		return err
 	}
